@@ -228,6 +228,11 @@ _set_setstate(Bucket *self, PyObject *args)
     int i, l, copied=1;
     KEY_TYPE *keys;
 
+    if (!PyTuple_Check(args)) {
+        /* PyArg_ParseTuple would answer SystemError (bad internal call) */
+        PyErr_SetString(PyExc_TypeError, "state must be a tuple");
+        return -1;
+    }
     UNLESS (PyArg_ParseTuple(args, "O|O", &items, &next))
         return -1;
 
